@@ -327,9 +327,12 @@ func newBigArr(elem types.Type, n *Term, symName string) *BigArrV {
 	return b
 }
 
-type unsupportedErr struct{ msg string }
+type unsupportedErr struct {
+	msg     string
+	checked bool // an inner branch already showed that its path condition is feasible
+}
 
-func unsupported(m string) unsupportedErr { return unsupportedErr{m} }
+func unsupported(m string) unsupportedErr { return unsupportedErr{msg: m} }
 
 // zeroValue builds the zero value of t.
 func zeroValue(t types.Type) Value {
